@@ -8,6 +8,7 @@ import copy
 from .. import boot  # noqa: F401
 from labrea import Option, abstractdataset, dataset, datasetclass, implements, interface, pipeline_step
 from labrea.dataset import Dataset
+import labrea.cache
 
 from .. import directed
 from .. import universe as U
@@ -578,6 +579,50 @@ def dataset_class_members(ctx, r, case):
         ctx.nontrivial(spec_hash(["dataset-class", levels, sorted(winning.items()), o, route]))
 
 
+def hostile_laziness(ctx, program, base, r, case, tag="random"):
+    """ONE long-lived instance (caching off: only per-object memos, aliasing and leftover state can interfere) driven
+    through a hostile history (lvf.hostile: the same dictionary object edited in place, typed twins, fail-then-complete):
+    at every step no body may run that belongs only to alternatives the eager reference decides against for the
+    dictionary as it is at that moment."""
+    from .. import hostile
+    G = build(program)
+    if G.log.events:
+        return
+    keys = sorted(k for k in mentioned_keys(program) if k in U.READ_KEYS)
+    trail = []
+    for label, obj in hostile.steps(r, base, keys):
+        snap = copy.deepcopy(obj)
+        trail.append([label, snap])
+        ref = Ref(program)
+        try:
+            exp = ref.run(copy.deepcopy(snap))
+        except RecursionError:
+            return
+        mark = G.log.mark()
+        with labrea.cache.disabled():
+            got = observe(G.root.evaluate, obj)
+        ctx.evaluations += 1
+        ctx.count("hostile_steps")
+        real_bodies = [e[2] for e in G.log.since(mark) if e[1] == "body"]
+        ref_bodies = [p_ for k, p_, _ in ref.ran if k == "body"]
+        extra = sorted(set(real_bodies) - set(ref_bodies))
+        avoid = {id(u) for u in ref.unselected}
+        only_unselected = set()
+        for u in ref.unselected:
+            only_unselected |= ref.reachable_datasets(u)
+        only_unselected -= ref.reachable_avoiding(program["root"], avoid)
+        forbidden = [p_ for p_ in extra if p_[2:].split(":")[0] in only_unselected]
+        if got[0] == "ok" and exp[0] == "ok":
+            ctx.count("hostile_steps_compared")
+            if forbidden or got != exp:
+                ctx.violation("hostile-history", f"step {len(trail)} ({label}) on one long-lived instance: bodies {forbidden} of alternatives the reference decides against ran "
+                              f"(outcome {short(got, 80)}, reference {short(exp, 80)})",
+                              {"family": "hostile", "program": program, "base": base, "case": case, "shard": ctx.shard, "shards": ctx.shards, "trail": trail[-3:], "source": tag})
+                return
+    if len(trail) > 2:
+        ctx.nontrivial(spec_hash(["hostile", program, base, case]))
+
+
 def run(ctx):
     rng = ctx.rng
     dicts = directed.dictionaries()
@@ -606,6 +651,8 @@ def run(ctx):
             continue
         for _ in range(3):
             evaluation_case(ctx, program, U.random_options(r, p_present=0.7, closed_only=True), "random")
+        if i % 3 == 0:
+            hostile_laziness(ctx, program, U.random_options(r, p_present=0.7, closed_only=True), case_rng(ctx, ("hostile", i)), i)
 
 
 def replay(ctx, rep):
@@ -622,6 +669,10 @@ def replay(ctx, rep):
     elif w.get("family") == "late-dispatch":
         ctx.shard, ctx.shards = w.get("shard", 0), w.get("shards", 1)
         late_dispatch(ctx, case_rng(ctx, ("late", w["case"])), w["case"])
+    elif w.get("family") == "hostile":
+        ctx.shard, ctx.shards = w.get("shard", 0), w.get("shards", 1)
+        r = case_rng(ctx, ("hostile", w["case"]))
+        hostile_laziness(ctx, w["program"], w["base"], r, w["case"], "replay")
     elif "options" in w and "program" in w:
         evaluation_case(ctx, w["program"], w["options"], "replay")
     elif "program" in w:
